@@ -241,6 +241,25 @@ snippet_slices_long!(snippet_slices_ascii24_k2, 2, ASCII24);
 snippet_slices_long!(snippet_slices_ascii64_k2, 2);
 snippet_slices_long!(snippet_slices_ascii64_k3, 3);
 
+/// 3 occurrences, window fixed to 0 (occurrences and max_snippets fully symbolic): the cheapest instance in
+/// which three separate slices - and therefore the interplay of merge branch and push branch - are reachable.
+#[kani::proof]
+#[kani::stub_verified(prev_char_boundary)]
+#[kani::stub_verified(next_char_boundary)]
+#[kani::stub_verified(sentence_start_before)]
+#[kani::stub_verified(sentence_end_after)]
+#[kani::stub_verified(advance_boundary)]
+#[kani::unwind(8)]
+fn snippet_slices_ascii64_k3_w0() {
+    let s = ASCII64;
+    let occ: [(usize, usize); 3] = kani::any();
+    let max_snippets: usize = kani::any();
+    let out = compute_snippet_slices(s, &occ, 0, max_snippets);
+    slices_ok(s, &out, max_snippets);
+    kani::cover!(out.len() == 3, "three separate slices");
+    kani::cover!(out.len() == 2, "two slices, one merge");
+}
+
 // Kani requires a #[proof_for_contract] harness for every stub_verified target.  For the three
 // char_indices-based helpers that form is only affordable on the empty text (see above); these are genuine,
 // if small, instances - the non-trivial instances are the plain harnesses `*_contract_l1..l4`.
